@@ -704,6 +704,18 @@ class Evaluator:
                 if cv is None:
                     raise Unrecognised(f"constant pattern {path} of unknown value")
                 return cv == v
+            if v[0] in ("ctor", "rec", "tuple", "array", "some", "none", "char") and not str(p.get("dk", "")).startswith("Ctor("):
+                # a constant of a structured type used as a pattern (`Self::PLAIN => ..`): compared by value, which must be known
+                cv = self.consts.get(path)
+                if not isinstance(cv, tuple):
+                    cv = self._const_value(path)
+                if cv is None:
+                    raise Unrecognised(f"constant pattern {path} of unknown value")
+                if cv == v:
+                    return True
+                if _has_unknown(v) or _has_unknown(cv):
+                    raise Unrecognised(f"constant pattern {path.split('::')[-1]} against a partly unknown value ({str(v)[:40]})")
+                return False
             return v[0] == "enum" and v[1] == path
         if k == "por":
             return any(self.bind(q, v, env) for q in p["pats"])
@@ -1197,6 +1209,14 @@ class Evaluator:
                         self._mutref[repr(v)] = pl
                 return v
         raise Unrecognised(f"call to {cal}")
+
+
+def _has_unknown(v):
+    if not isinstance(v, tuple):
+        return isinstance(v, dict) and any(_has_unknown(x) for x in v.values())
+    if v and v[0] in ("sym", "app", "bin", "not"):
+        return True
+    return any(_has_unknown(x) for x in v[1:])
 
 
 def _next_call(e):
